@@ -80,9 +80,18 @@ fn main() {
 
     let ctx = Ctx { tier, seed, workers: default_workers(), variant: variant.clone() };
     let t0 = Instant::now();
-    let Some(rep) = props::run_property(&id, &ctx) else {
-        eprintln!("unknown property {}", id);
-        std::process::exit(2);
+    let run = std::panic::catch_unwind(std::panic::AssertUnwindSafe(|| props::run_property(&id, &ctx)));
+    let rep = match run {
+        Ok(Some(rep)) => rep,
+        Ok(None) => {
+            eprintln!("unknown property {}", id);
+            std::process::exit(2);
+        }
+        Err(_) => {
+            // a panic of the harness itself (driver panics are caught per case): inconclusive, never a violation
+            eprintln!("HARNESS PANIC in {}: {}", id, vharness::dut::last_panic());
+            std::process::exit(2);
+        }
     };
     let wall = t0.elapsed().as_secs_f64();
 
